@@ -40,7 +40,7 @@ func AddTrailers(
 ) {
 	for _, header := range src {
 		for _, val := range header.Value {
-			dest.Add(http.TrailerPrefix+header.Name, val)
+			dest.Add(http.TrailerPrefix+http.CanonicalHeaderKey(header.Name), val)
 		}
 	}
 }
